@@ -29,7 +29,6 @@ def obligations(tier: str) -> list[Ob]:
     obs = [
         harness_ob(
             "convert_value_fidelity", "C13_defaults.py", tier, timeout=150 if q else 600, cpus=8, parallel=10, replay_func="vlib.props.C13:replay",
-            finding_by_func={"float_default": "C13-F1"},
             encoded=[f"openapi_python_client.parser.properties.{m}:{c}.convert_value" for m, c in (("int", "IntProperty"), ("float", "FloatProperty"), ("boolean", "BooleanProperty"), ("string", "StringProperty"), ("date", "DateProperty"), ("datetime", "DateTimeProperty"), ("uuid", "UuidProperty"), ("none", "NoneProperty"))],
             stubs=["default of symbolic JSON type; string/int/float members from pools (numeric grammar, non-finite values, date/uuid spellings)"],
             bounds={"string pool": 24, "int pool": 4, "float pool": 7},
